@@ -46,19 +46,76 @@ pub fn dummy_file() -> File {
 }
 
 // ---- stdout recorder (serial port, diagnostics) ----
-pub static mut OUT: [u8; 8] = [0; 8];
-pub static mut NOUT: usize = 0;
-pub static mut PRINT_CALLS: usize = 0;
-pub fn out_reset() { unsafe { NOUT = 0; PRINT_CALLS = 0; } }
-pub fn out_len() -> usize { unsafe { NOUT } }
-pub fn out_byte(i: usize) -> u8 { unsafe { OUT[i & 7] } }
-pub fn print_calls() -> usize { unsafe { PRINT_CALLS } }
-pub fn stub_stdout_write(_s: &mut std::io::Stdout, buf: &[u8]) -> std::io::Result<usize> {
-  unsafe {
-    let mut i = 0;
-    while i < buf.len() { if NOUT < 8 { OUT[NOUT] = buf[i]; } NOUT += 1; i += 1; }
+// Under Kani: `Stdout::write/flush` and `std::io::_print` are stubbed by the
+// recorders below.  In the native replay build nothing is stubbed; the same
+// accessor functions capture file descriptor 1 into a temporary file instead,
+// so the harness observes what the real code really wrote to stdout.
+#[cfg(not(verif_playback))]
+mod rec {
+  pub static mut OUT: [u8; 8] = [0; 8];
+  pub static mut NOUT: usize = 0;
+  pub fn reset() { unsafe { NOUT = 0; } }
+  pub fn len() -> usize { unsafe { NOUT } }
+  pub fn byte(i: usize) -> u8 { unsafe { OUT[i & 7] } }
+  pub fn finish() {}
+  pub fn push(b: u8) { unsafe { if NOUT < 8 { OUT[NOUT] = b; } NOUT += 1; } }
+}
+#[cfg(verif_playback)]
+mod rec {
+  use std::io::{Read, Seek, SeekFrom, Write};
+  use std::os::unix::io::AsRawFd;
+  static mut SAVED: i32 = -1;
+  static mut FILE: Option<std::fs::File> = None;
+  pub fn reset() {
+    let _ = std::io::stdout().flush();
+    let mut p = std::env::temp_dir();
+    p.push(format!("gbdv-stdout-{}.cap", std::process::id()));
+    let f = std::fs::OpenOptions::new().read(true).write(true).create(true).truncate(true).open(&p).expect("capture file");
+    let _ = std::fs::remove_file(&p);
+    unsafe {
+      if SAVED < 0 { SAVED = libc::dup(1); }
+      libc::dup2(f.as_raw_fd(), 1);
+      FILE = Some(f);
+    }
   }
+  fn contents() -> Vec<u8> {
+    let _ = std::io::stdout().flush();
+    let mut v = Vec::new();
+    unsafe {
+      if let Some(f) = FILE.as_mut() { let _ = f.seek(SeekFrom::Start(0)); let _ = f.read_to_end(&mut v); }
+    }
+    v
+  }
+  pub fn len() -> usize { contents().len() }
+  pub fn byte(i: usize) -> u8 { let c = contents(); if i < c.len() { c[i] } else { 0 } }
+  pub fn finish() { let _ = std::io::stdout().flush(); unsafe { if SAVED >= 0 { libc::dup2(SAVED, 1); } } }
+  pub fn push(_b: u8) {}
+}
+pub fn out_reset() { rec::reset() }
+pub fn out_len() -> usize { rec::len() }
+pub fn out_byte(i: usize) -> u8 { rec::byte(i) }
+pub fn out_finish() { rec::finish() }
+pub fn stub_stdout_write(_s: &mut std::io::Stdout, buf: &[u8]) -> std::io::Result<usize> {
+  let mut i = 0;
+  while i < buf.len() { rec::push(buf[i]); i += 1; }
   Ok(buf.len())
 }
 pub fn stub_stdout_flush(_s: &mut std::io::Stdout) -> std::io::Result<()> { Ok(()) }
-pub fn stub_print(_args: std::fmt::Arguments<'_>) { unsafe { PRINT_CALLS += 1; } }
+pub fn stub_stdout_write_all(_s: &mut std::io::Stdout, buf: &[u8]) -> std::io::Result<()> {
+  let mut i = 0;
+  while i < buf.len() { rec::push(buf[i]); i += 1; }
+  Ok(())
+}
+pub fn stub_lock_write<'a>(_s: &mut std::io::StdoutLock<'a>, buf: &[u8]) -> std::io::Result<usize> where 'a: 'a {
+  let mut i = 0;
+  while i < buf.len() { rec::push(buf[i]); i += 1; }
+  Ok(buf.len())
+}
+pub fn stub_lock_write_all<'a>(_s: &mut std::io::StdoutLock<'a>, buf: &[u8]) -> std::io::Result<()> where 'a: 'a {
+  let mut i = 0;
+  while i < buf.len() { rec::push(buf[i]); i += 1; }
+  Ok(())
+}
+pub fn stub_lock_flush<'a>(_s: &mut std::io::StdoutLock<'a>) -> std::io::Result<()> where 'a: 'a { Ok(()) }
+/// `print!`/`println!` end up here; the text is not modelled, one marker byte is recorded.
+pub fn stub_print(_args: std::fmt::Arguments<'_>) { rec::push(0x0a); }
